@@ -11,6 +11,12 @@
  * The simulator switches the step on only while an operation of the code under test runs and
  * off again before its own timers (wall-clock caps, watchdogs) look at the clock, so each of the
  * two sees a monotonic clock. Without a call to verif_clock_step the shim changes nothing.
+ *
+ *   verif_clock_date(secs) secs > 0: from now on CLOCK_REALTIME reads as if the call had been made
+ *                                  `secs` seconds after the epoch (the system's calendar date is
+ *                                  somewhere else: 1970 on a board without a battery, or centuries
+ *                                  ahead); the monotonic clocks are untouched;
+ *                          secs = 0: the real date again.
  */
 #define _GNU_SOURCE
 #include <dlfcn.h>
@@ -20,13 +26,30 @@ static int (*real_clock_gettime)(clockid_t, struct timespec *);
 static volatile long long step_ns;
 static volatile long long offset_ns;
 
+static volatile long long date_off_s;
+
 void verif_clock_step(long long ns) { step_ns = ns; }
+
+void verif_clock_date(long long secs) {
+    if (!real_clock_gettime) {
+        real_clock_gettime = (int (*)(clockid_t, struct timespec *))dlsym(RTLD_NEXT, "clock_gettime");
+    }
+    struct timespec now;
+    if (secs > 0 && real_clock_gettime(CLOCK_REALTIME, &now) == 0) {
+        date_off_s = secs - (long long)now.tv_sec;
+    } else {
+        date_off_s = 0;
+    }
+}
 
 int clock_gettime(clockid_t id, struct timespec *ts) {
     if (!real_clock_gettime) {
         real_clock_gettime = (int (*)(clockid_t, struct timespec *))dlsym(RTLD_NEXT, "clock_gettime");
     }
     int r = real_clock_gettime(id, ts);
+    if (r == 0 && id == CLOCK_REALTIME && date_off_s != 0) {
+        ts->tv_sec += date_off_s;
+    }
     long long step = step_ns;
     if (r == 0 && step > 0 &&
         (id == CLOCK_MONOTONIC || id == CLOCK_REALTIME || id == CLOCK_MONOTONIC_RAW || id == CLOCK_BOOTTIME)) {
